@@ -132,3 +132,10 @@ func taskDone(id int32) {
 	}
 	s.active = 0
 }
+
+// setSink switches the result sink of the running task. It is norace because
+// the tasks take turns writing this one harness variable under the scheduler's
+// hand-over, which the race detector cannot see.
+//
+//go:norace
+func setSink(tc *taskCall) { keepSink = tc }
